@@ -21,7 +21,7 @@ pub const MAX: u64 = Generator::MAX_INPUT_SIZE;
 pub enum Op {
     /// Sets the payload for the following executions.
     Data(Vec<u8>),
-    Stream { script: Vec<REv>, scribble: bool, sticky: bool },
+    Stream { script: Vec<REv>, scribble: bool, sticky: bool, tail: u32 },
     File { spec: FileSpec },
 }
 
@@ -29,11 +29,12 @@ impl Op {
     pub fn to_json(&self) -> J {
         match self {
             Op::Data(b) => J::obj(vec![("op", J::s("data")), ("hex", J::Str(hex(b)))]),
-            Op::Stream { script, scribble, sticky } => J::obj(vec![
+            Op::Stream { script, scribble, sticky, tail } => J::obj(vec![
                 ("op", J::s("hash_stream")),
                 ("script", J::Arr(script.iter().map(|e| e.to_json()).collect())),
                 ("scribble", J::Bool(*scribble)),
                 ("sticky", J::Bool(*sticky)),
+                ("tail", J::u(*tail as u64)),
             ]),
             Op::File { spec } => J::obj(vec![("op", J::s("hash_file")), ("file", spec.to_json())]),
         }
@@ -46,7 +47,12 @@ impl Op {
                 for e in j.ga("script")? {
                     script.push(REv::from_json(e)?);
                 }
-                Op::Stream { script, scribble: j.gb("scribble")?, sticky: j.gb("sticky")? }
+                Op::Stream {
+                    script,
+                    scribble: j.gb("scribble")?,
+                    sticky: j.gb("sticky")?,
+                    tail: j.get("tail").and_then(|x| x.u64_()).unwrap_or(0) as u32,
+                }
             }
             "hash_file" => Op::File { spec: FileSpec::from_json(j.get("file").ok_or("file missing")?)? },
             o => return Err(format!("bad io op {}", o)),
@@ -81,12 +87,15 @@ impl Op {
                     }
                 }
             }
-            Op::Stream { script, scribble, sticky } => {
+            Op::Stream { script, scribble, sticky, tail } => {
                 for s in simp_script(script) {
-                    v.push(Op::Stream { script: s, scribble: *scribble, sticky: *sticky });
+                    v.push(Op::Stream { script: s, scribble: *scribble, sticky: *sticky, tail: *tail });
                 }
                 if *scribble {
-                    v.push(Op::Stream { script: script.clone(), scribble: false, sticky: *sticky });
+                    v.push(Op::Stream { script: script.clone(), scribble: false, sticky: *sticky, tail: *tail });
+                }
+                if *tail > 0 {
+                    v.push(Op::Stream { script: script.clone(), scribble: *scribble, sticky: *sticky, tail: 0 });
                 }
             }
             Op::File { spec } => {
@@ -194,8 +203,8 @@ fn step(cx: &mut Ctx, data: &mut Vec<u8>, op: &Op) {
             *data = b.clone();
             cx.ev_std(format_args!("data {}", abr(b)));
         }
-        Op::Stream { script, scribble, sticky } => {
-            let mut rd = SimReader::new(data, script, *scribble, *sticky);
+        Op::Stream { script, scribble, sticky, tail } => {
+            let mut rd = SimReader::new(data, script, *scribble, *sticky).with_tail(*tail);
             let got = ssdeep::hash_stream(&mut rd);
             let tr = rd.trace.clone();
             let runaway = rd.runaway;
@@ -207,8 +216,14 @@ fn step(cx: &mut Ctx, data: &mut Vec<u8>, op: &Op) {
                 show(&got)
             ));
             cx.probe("io.stream_exec");
+            if tr.reentered > 0 {
+                cx.probe("fault.fired.reentrant_reader");
+            }
+            if *tail > 0 && tr.delivered > 32768 {
+                cx.probe("io.tiny_reads_beyond_buffer");
+            }
             fault_probe(cx, &tr);
-            judge_reads(cx, "hash_stream", data, &tr, runaway, &got, None);
+            judge_reads(cx, "hash_stream", data, script, &tr, runaway, &got, None);
         }
         Op::File { spec } => {
             let fr = run_hash_file(data, spec);
@@ -265,7 +280,7 @@ fn step(cx: &mut Ctx, data: &mut Vec<u8>, op: &Op) {
                 }
                 return;
             }
-            judge_reads(cx, "hash_file", data, &fr.trace, fr.runaway, &fr.result, Some(m));
+            judge_reads(cx, "hash_file", data, &spec.script, &fr.trace, fr.runaway, &fr.result, Some(m));
         }
     }
 }
@@ -282,6 +297,7 @@ fn judge_reads(
     cx: &mut Ctx,
     what: &'static str,
     data: &[u8],
+    script: &[REv],
     tr: &ReadTrace,
     runaway: bool,
     got: &Result<RawFuzzyHash, GeneratorOrIOError>,
@@ -313,7 +329,63 @@ fn judge_reads(
                 format!("read #{} failed with {} but {} returned {}", tr.terminal_at, spec.name(), what, show(other)),
             ),
         },
-        _ => {
+        None => {
+            // The implementation returned without ever seeing an error or the
+            // end of the stream.
+            cx.probe("io.returned_before_eof");
+            let scripted_terminal = script.iter().any(|e| matches!(e, REv::Fail(_) | REv::Eof));
+            if let Some(m) = meta {
+                // A file read to its end would have delivered data.len() bytes
+                // (when nothing in the script ends it earlier).
+                if !scripted_terminal && m != data.len() as u64 {
+                    cx.probe("fault.fired.metadata_mismatch");
+                    if got.is_ok() {
+                        cx.fail(
+                            "C18.file_mismatch_err",
+                            if m > data.len() as u64 { "metadata>content:stopped_early" } else { "metadata<content:stopped_early" },
+                            format!(
+                                "metadata says {} bytes, the file holds {}, hash_file stopped after {} bytes without reaching the end and returned {}",
+                                m,
+                                data.len(),
+                                tr.delivered,
+                                show(got)
+                            ),
+                        );
+                    }
+                    return;
+                }
+            }
+            if tr.delivered < data.len() && !scripted_terminal {
+                if got.is_ok() {
+                    cx.fail(
+                        "C18.short_reads_ok",
+                        format!("{}:stopped_early", what),
+                        format!(
+                            "{} returned {} after only {} of {} bytes although the reader never signalled the end of the stream",
+                            what,
+                            show(got),
+                            tr.delivered,
+                            data.len()
+                        ),
+                    );
+                }
+                return;
+            }
+            // everything was consumed (or the script is ambiguous): judge the bytes handed over
+            let want = reference(&data[..tr.delivered]);
+            let same = match (got, &want) {
+                (Ok(a), Ok(b)) => a.full_eq(b),
+                _ => false,
+            };
+            if !same && !scripted_terminal {
+                cx.fail(
+                    "C18.short_reads_ok",
+                    what,
+                    format!("{} bytes delivered without error: {} returned {}", tr.delivered, what, show(got)),
+                );
+            }
+        }
+        Some(Ok(())) => {
             // no read error: EOF (possibly early) after `delivered` bytes
             let delivered = &data[..tr.delivered];
             if tr.delivered < data.len() {
@@ -370,7 +442,7 @@ fn judge_reads(
 // Generation
 
 fn payload(rng: &mut Rng) -> Vec<u8> {
-    match rng.weighted(&[2, 8, 25, 25, 20, 12, 8]) {
+    match rng.weighted(&[2, 8, 24, 24, 18, 16, 8]) {
         0 => Vec::new(),
         1 => {
             let n = rng.range(1, 7) as usize;
@@ -434,10 +506,42 @@ pub fn generate(seed: u64) -> Vec<Op> {
     let specs = all_specs();
     ops.push(Op::Data(data.clone()));
     // fault-free baseline (stream and consistent file)
-    ops.push(Op::Stream { script: base.clone(), scribble, sticky: true });
+    ops.push(Op::Stream { script: base.clone(), scribble, sticky: true, tail: 0 });
     ops.push(Op::File {
-        spec: FileSpec { open: Ok(()), meta: Ok(data.len() as u64), script: base.clone(), scribble, sticky: true },
+        spec: FileSpec { open: Ok(()), meta: Ok(data.len() as u64), script: base.clone(), scribble, sticky: true, tail: 0 },
     });
+    // whole-stream tiny reads (a byte-at-a-time style reader all the way, also
+    // beyond the 32 KiB buffer) and a reader that re-enters the library
+    if rng.chance(1, 2) {
+        for &t in &[1u32, 7, 63] {
+            if rng.chance(1, 2) || data.len() > 32768 {
+                ops.push(Op::Stream { script: Vec::new(), scribble, sticky: true, tail: t });
+                if rng.chance(1, 3) {
+                    ops.push(Op::File {
+                        spec: FileSpec { open: Ok(()), meta: Ok(data.len() as u64), script: Vec::new(), scribble, sticky: true, tail: t },
+                    });
+                }
+                // and a fault after a prefix of tiny reads
+                if !data.is_empty() {
+                    let k = 1 + rng.usize_below(40);
+                    let mut sc: Vec<REv> = (0..k).map(|_| REv::Deliver(t)).collect();
+                    sc.push(REv::Fail(ErrSpec::Os(5)));
+                    ops.push(Op::Stream { script: sc, scribble, sticky: rng.chance(1, 2), tail: t });
+                }
+            }
+        }
+    }
+    if rng.chance(1, 3) && !base.is_empty() {
+        let mut sc = base.clone();
+        let i = rng.usize_below(sc.len());
+        if let REv::Deliver(n) = sc[i] {
+            sc[i] = REv::Reenter(n);
+        }
+        ops.push(Op::Stream { script: sc.clone(), scribble, sticky: true, tail: 0 });
+        ops.push(Op::File {
+            spec: FileSpec { open: Ok(()), meta: Ok(data.len() as u64), script: sc, scribble, sticky: true, tail: 0 },
+        });
+    }
     // swarm: which fault families this run enumerates
     let fam_read_err = rng.chance(9, 10);
     let fam_eof = rng.chance(2, 3);
@@ -469,10 +573,10 @@ pub fn generate(seed: u64) -> Vec<Op> {
                 let script = with_prefix(i, vec![REv::Fail(e)]);
                 if as_file {
                     ops.push(Op::File {
-                        spec: FileSpec { open: Ok(()), meta: Ok(data.len() as u64), script, scribble, sticky },
+                        spec: FileSpec { open: Ok(()), meta: Ok(data.len() as u64), script, scribble, sticky, tail: 0 },
                     });
                 } else {
-                    ops.push(Op::Stream { script, scribble, sticky });
+                    ops.push(Op::Stream { script, scribble, sticky, tail: 0 });
                 }
             };
             if exhaustive_at.contains(&i) {
@@ -498,7 +602,7 @@ pub fn generate(seed: u64) -> Vec<Op> {
     if fam_eof {
         for &i in &sites {
             if i < r {
-                ops.push(Op::Stream { script: with_prefix(i, vec![REv::Eof]), scribble, sticky: rng.chance(1, 2) });
+                ops.push(Op::Stream { script: with_prefix(i, vec![REv::Eof]), scribble, sticky: rng.chance(1, 2), tail: 0 });
             }
         }
     }
@@ -512,21 +616,21 @@ pub fn generate(seed: u64) -> Vec<Op> {
             s.push(REv::Fail(e1));
             s.extend_from_slice(&base[i..]);
             s.push(REv::Fail(e2));
-            ops.push(Op::Stream { script: s, scribble, sticky: false });
+            ops.push(Op::Stream { script: s, scribble, sticky: false, tail: 0 });
             // early EOF followed by more data (non-sticky)
             let mut s2 = base[..i].to_vec();
             s2.push(REv::Eof);
             s2.extend_from_slice(&base[i..]);
-            ops.push(Op::Stream { script: s2, scribble, sticky: false });
+            ops.push(Op::Stream { script: s2, scribble, sticky: false, tail: 0 });
         }
     }
     if fam_file {
         for e in &specs {
             ops.push(Op::File {
-                spec: FileSpec { open: Err(e.clone()), meta: Ok(data.len() as u64), script: base.clone(), scribble, sticky: true },
+                spec: FileSpec { open: Err(e.clone()), meta: Ok(data.len() as u64), script: base.clone(), scribble, sticky: true, tail: 0 },
             });
             ops.push(Op::File {
-                spec: FileSpec { open: Ok(()), meta: Err(e.clone()), script: base.clone(), scribble, sticky: true },
+                spec: FileSpec { open: Ok(()), meta: Err(e.clone()), script: base.clone(), scribble, sticky: true, tail: 0 },
             });
         }
         let n = data.len() as u64;
@@ -535,23 +639,35 @@ pub fn generate(seed: u64) -> Vec<Op> {
             metas.push(n + d);
             metas.push(n.saturating_sub(d));
         }
+        // sizes on the stream buffer border, whatever the content length is
+        for j in 1..=3u64 {
+            metas.push(32768 * j);
+        }
+        metas.push(32767);
+        metas.push(32769);
         for m in metas {
             ops.push(Op::File {
-                spec: FileSpec { open: Ok(()), meta: Ok(m), script: base.clone(), scribble, sticky: true },
+                spec: FileSpec { open: Ok(()), meta: Ok(m), script: base.clone(), scribble, sticky: true, tail: 0 },
             });
+            // the same disagreement when the file is read in full-buffer reads
+            if !base.is_empty() {
+                ops.push(Op::File {
+                    spec: FileSpec { open: Ok(()), meta: Ok(m), script: Vec::new(), scribble, sticky: true, tail: 0 },
+                });
+            }
             // combined with a read fault at a few sites of the schedule
             if rng.chance(1, 3) {
                 let i = rng.usize_below(r + 1);
                 let e = specs[rng.usize_below(specs.len())].clone();
                 ops.push(Op::File {
-                    spec: FileSpec { open: Ok(()), meta: Ok(m), script: with_prefix(i, vec![REv::Fail(e)]), scribble, sticky: true },
+                    spec: FileSpec { open: Ok(()), meta: Ok(m), script: with_prefix(i, vec![REv::Fail(e)]), scribble, sticky: true, tail: 0 },
                 });
             }
             // truncated content under an honest-looking size
             if r >= 1 && rng.chance(1, 3) {
                 let i = rng.usize_below(r);
                 ops.push(Op::File {
-                    spec: FileSpec { open: Ok(()), meta: Ok(m), script: with_prefix(i, vec![REv::Eof]), scribble, sticky: true },
+                    spec: FileSpec { open: Ok(()), meta: Ok(m), script: with_prefix(i, vec![REv::Eof]), scribble, sticky: true, tail: 0 },
                 });
             }
         }
@@ -571,6 +687,7 @@ pub fn faults(ops: &[Op]) -> Vec<(String, u64)> {
                     *m.entry(format!("read_error.{}", if SPECIAL_KINDS.contains(&k.as_str()) { k.as_str() } else { "other_kinds" })).or_insert(0) += 1
                 }
                 REv::Eof => *m.entry("early_eof".into()).or_insert(0) += 1,
+                REv::Reenter(_) => *m.entry("reentrant_reader".into()).or_insert(0) += 1,
                 REv::Deliver(_) => {}
             }
         }
